@@ -271,6 +271,7 @@ def build(tier):
         us += layout_units('sse2', ['float', 'int', 'unsigned', 'double'], ['aligned_highp', 'packed_highp', 'aligned_lowp'])
         us += [named_unit('default'), named_unit('sse2')]
         us += layout_units('wxyz', ['float'], ['packed_highp'], Ls=(), shapes=[])
+        us += layout_units('wxyzsse2', ['float', 'double'], ['aligned_highp', 'packed_highp'], Ls=(), shapes=[])      # the SIMD build has its own member list (anonymous-struct union)
         # every other configuration at least with float / packed_highp (all lengths and shapes): a typedef or member list changed under one macro only
         for cfg in ('sizet', 'xyzw', 'ctorinit', 'swzfunc'): us += layout_units(cfg, ['float', 'int'], ['packed_highp'])
         us += layout_units('defal', ['float'], ['defaultp', 'packed_highp'])
